@@ -109,6 +109,7 @@ package sse
 //@   ensures wf_kept: wf(q) && len(q.buf) == newSize && q.head == 0 && q.count == old(q.count)
 //@   ensures view_kept: forall(k, 0, q.count, at(q, k) == old(at(q, k)))
 //@   ensures dead_slots_zero: deadzero(q)
+//@   ensures no_hidden_slots: cap(q.buf) == len(q.buf)
 
 //@ opaque intersects(a, b) = exists(i, 0, len(a), exists(j, 0, len(b), a[i] == b[j]))
 
